@@ -1,6 +1,7 @@
 import Driver.Proto
 import Driver.Ops.C06
 import Driver.Ops.C03
+import Driver.Ops.C17
 
 /-! pqdriver: one request per line on stdin, one answer per line on stdout.
     Each property registers its ops in `Driver/Ops/<id>.lean` as
@@ -9,7 +10,8 @@ namespace Driver
 
 def handlers : List (List String → Option String) := [
   Ops.C06.handle,
-  Ops.C03.handle
+  Ops.C03.handle,
+  Ops.C17.handle
 ]
 
 /-- never defaults an unparsable request -/
